@@ -89,6 +89,11 @@ ssize_t STUB(read)(int fd, void *buf, size_t n)
 	g_reads++; g_rd_fd = fd; g_rd_n = n;
 	if (g_rd_eintr > 0) { g_rd_eintr--; verif_errno = EINTR; return -1; }
 	if (verif_in.rd_ret < 0) { verif_errno = verif_in.rd_errno; return -1; }
+	if (g_reads > verif_in.rd_eintr + 1) {
+		/* everything pending was handed out by the first successful read: the descriptor is empty now */
+		verif_errno = EAGAIN;
+		return -1;
+	}
 	__CPROVER_assume((size_t)verif_in.rd_ret <= n);
 	return verif_in.rd_ret;
 }
@@ -192,8 +197,8 @@ void h_raw_got_event(void)
 	/* 0 bytes or an error other than EAGAIN are fatal by design: not offered by the kernel stub */
 	__CPROVER_assume(verif_in.rd_ret > 0 || (verif_in.rd_ret < 0 && verif_in.rd_errno == EAGAIN));
 	iv_event_raw_got_event(&v_er);
-	__CPROVER_assert(g_reads == verif_in.rd_eintr + 1 && g_rd_fd == 6, "[C09,C15] the descriptor is drained with one read, retried when interrupted");
+	__CPROVER_assert(g_reads >= verif_in.rd_eintr + 1 && g_rd_fd == 6, "[C09,C15] the descriptor is read (retried when interrupted)");
 	__CPROVER_assert(g_rd_n == (eventfd_in_use ? 8 : 1024), "[C09] 8 bytes from an eventfd, up to 1 KB from a pipe: a burst coalesces");
-	__CPROVER_assert(g_handler_calls == (verif_in.rd_ret > 0 ? 1 : 0), "[C09] the handler runs once iff something was drained (a spurious wake-up is silent); anything written afterwards re-fires the level-triggered descriptor");
+	__CPROVER_assert(g_handler_calls == (verif_in.rd_ret > 0 ? 1 : 0), "[C09] the handler runs once iff something was drained -- also when the pending data exactly fills the read buffer (a burst, a full pipe) -- and a spurious wake-up is silent; anything written afterwards re-fires the level-triggered descriptor");
 	CANARY();
 }
